@@ -315,7 +315,7 @@ impl Prop for C10 {
             let inputs = long_token_inputs(tier.pick(14, 17));
             let ops = OpSet::builtin();
             for i in a..b {
-                out.idx = Some(i);
+                out.at(i);
                 let (name, text) = &inputs[i as usize];
                 let mut tmp = WorkerOut::default();
                 check_tokens(text, &ops, "long-tokens", &mut tmp);
@@ -349,7 +349,7 @@ impl Prop for C10 {
         };
         let name = format!("{}{}", sw[stage].0, stage);
         for i in a..b {
-            out.idx = Some(i);
+            out.at(i);
             let s = strings.get(i);
             check_tokens(&s, &ops, &name, out);
             if i % 50_021 == 11 {
